@@ -128,8 +128,12 @@ func VerifC08Pipeline() {
 	in.Header.Set("Te", "trailers")
 	// Connection may name any of these headers
 	var named []string
+	lower := verifParam("lower") == 1 // field names are case-insensitive, also inside Connection
 	for i, n := range vfConnNames {
 		if verifBool(verifName("conn", i)) {
+			if lower {
+				n = strings.ToLower(n)
+			}
 			named = append(named, n)
 		}
 	}
@@ -146,7 +150,7 @@ func VerifC08Pipeline() {
 
 	isNamed := func(h string) bool {
 		for _, n := range named {
-			if n == h {
+			if strings.EqualFold(n, h) {
 				return true
 			}
 		}
